@@ -73,6 +73,27 @@ def opt_inner(ty):
     return ty[len("Option<"):-1] if ty.startswith("Option<") else None
 
 
+BY_NAME = {u["name"]: u for u in USER}
+
+
+def keys_empty(u):
+    """T::db_keys() == [] in the FIXED macro: an own Option field, or a flattened struct whose keys are empty"""
+    fs = [f for f in u["fields"] if f["name"] != "db_id" and not f["skip"]]
+    if any(opt_inner(f["ty"]) for f in fs):
+        return True
+    if any(f["flatten"] and keys_empty(BY_NAME[f["ty"]]) for f in fs):
+        return True
+    return False
+
+
+def known_class(u):
+    """KnownClass of the recorded finding: the pinned macro looks only at the type's OWN fields for Option, so a type without an own
+    Option field that flattens a struct needing all keys selects too few keys"""
+    fs = [f for f in u["fields"] if f["name"] != "db_id" and not f["skip"]]
+    own_opt = any(opt_inner(f["ty"]) for f in fs)
+    return "flatten-option-keys" if (not own_opt and keys_empty(u)) else ""
+
+
 def gen_custom(w):
     for name, kind, fields in CUSTOM:
         w("#[derive(Debug, Clone, agdb::DbSerialize, agdb::DbValue, agdb::DbTypeMarker)]")
@@ -151,7 +172,7 @@ def gen_user(w):
         idf = [f for f in u["fields"] if f["name"] == "db_id"]
         w("impl Ut for %s {" % name)
         w('    const NAME: &\'static str = "%s";' % name)
-        w('    const KNOWN: &\'static str = "%s";' % u.get("known", ""))
+        w('    const KNOWN: &\'static str = "%s";' % known_class(u))
         w("    const ELEMENT: bool = %s;" % ("true" if u["derive"] == "DbElement" else "false"))
         # in_model / desc / model / diff / gen / skip_default
         inm, desc, model, diff, gen, skipd, merge = [], [], [], [], [], [], []
@@ -164,7 +185,7 @@ def gen_user(w):
                 gen.append("db_id: <%s as IdField>::fresh()" % ty)
                 continue
             if f["skip"]:
-                desc.append('"skip".to_string()')
+                desc.append('"(skip %d)".to_string()' % (1 if opt_inner(ty) else 0))
                 model.append('"skip".to_string()')
                 if opt_inner(ty):
                     gen.append("%s: if r.chance(1, 2) { None } else { Some(Fv::make(r)) }" % n)
